@@ -1682,6 +1682,82 @@ def o_area_assembly(mir, tier, seed):
     return dict(theory='Real (nonlinear only in the triangle / rect products); ring and member areas uninterpreted reals', functions=['Area for Polygon / MultiPolygon / GeometryCollection / Triangle / Rect: signed_area, unsigned_area'], paths=npaths, status=st, info=info, model=None, replay=('area_assembly', ''))
 
 
+# ---- C19: the bounding-box fold and the merge of member boxes
+
+@obligation('C19', 'bounding_rect_fold_real', 'get_bounding_rect over 0-4 coordinates with ANY real values: None for no coordinate, otherwise the rectangle from (min x, min y) to (max x, max y) (each path re-executed from scratch; Rect::new uninterpreted - its normalisation is C18\'s); GeometryCollection::bounding_rect over 0-3 members whose own boxes are arbitrary or absent: absent iff all are absent, else the componentwise min / max of the present ones')
+def o_bbox(mir, tier, seed):
+    from mir2smt import SliceIter
+    T = RealTheory()
+    bad, npaths = [], 0
+    fn = mir.find('geo_types', r'get_bounding_rect')
+    zmin2 = lambda a, b: z3.If(a <= b, a, b)
+    zmax2 = lambda a, b: z3.If(a >= b, a, b)
+    for n in (0, 1, 2, 3, 4):
+        cs = [coord(T, 'c%d_%d_' % (n, i)) for i in range(n)]
+        uf = {'re:<I as IntoIterator>::into_iter': lambda ip, d: d[0],
+              're:<<I as IntoIterator>::IntoIter as IntoIterator>::into_iter': lambda ip, d: d[0],
+              're:<C as AsRef<geometry::coord::Coord<T>>>::as_ref': lambda ip, d: d[0],
+              're:rect::Rect::<T>::new::<.*>': lambda ip, d: ('rect', deref(d[0]), deref(d[1]))}
+        ip = Interp(mir, T, dict(EXTRA, **{r'get_min_max::<\w+>': ('geo_types', r'get_min_max'), r'geometry::coord::Coord::<\w+>::x_y': ('geo_types', r'geometry::coord::<impl at [^>]*>::x_y')}), uf)
+        res = ip.explore(fn, lambda cs=cs: [SliceIter([list(c) for c in cs])])
+        npaths += len(res)
+        bad.append(z3.Not(z3.Or([pc for pc, _, _ in res])))
+        for pc, val, _ in res:
+            val = deref(val)
+            if n == 0:
+                if not variant_is(val, 'None'):
+                    bad.append(pc)
+                continue
+            if not variant_is(val, 'Some'):
+                bad.append(pc)
+                continue
+            r = deref(val.fields[0])
+            lo, hi = r[1], r[2]
+            want = []
+            for k in (0, 1):
+                mn, mx = cs[0][k], cs[0][k]
+                for c in cs[1:]:
+                    mn, mx = zmin2(mn, c[k]), zmax2(mx, c[k])
+                want += [lo[k] == mn, hi[k] == mx]
+            bad.append(z3.And(pc, z3.Not(z3.And(want))))
+    # GeometryCollection: merge of the members' boxes
+    gfn = mir.find('geo', r'bounding_rect::<impl at [^>]*>::bounding_rect', sig=r'_1: &geo_types::GeometryCollection<T>')
+    for nm in (0, 1, 2, 3):
+        has = [z3.Bool('has_box_%d_%d' % (nm, i)) for i in range(nm)]
+        box = [(coord(T, 'lo_%d_%d_' % (nm, i)), coord(T, 'hi_%d_%d_' % (nm, i))) for i in range(nm)]
+        assume_box = [z3.And(lo[0] <= hi[0], lo[1] <= hi[1]) for lo, hi in box]
+
+        def member_box(ip, d, has=has, box=box):
+            i = d[0][1]
+            return ('fork', [(has[i], Enum('Some', [('rect', list(box[i][0]), list(box[i][1]))])), (z3.Not(has[i]), Enum('None'))])
+        uf = {'re:<geo_types::Geometry<T> as (algorithm::)?bounding_rect::BoundingRect<T>>::bounding_rect': member_box,
+              're:geo_types::GeometryCollection::<\\w+>::iter': lambda ip, d: SliceIter(deref(d[0])[0]),
+              're:geo_types::Rect::<\\w+>::min': lambda ip, d: list(deref(d[0])[1]), 're:geo_types::Rect::<\\w+>::max': lambda ip, d: list(deref(d[0])[2]),
+              're:geo_types::Rect::<\\w+>::new::<.*>': lambda ip, d: ('rect', deref(d[0]), deref(d[1]))}
+        ip = Interp(mir, T, dict(EXTRA, **{r'bounding_rect_merge::<\w+>': ('geo', r'bounding_rect_merge'), r'(utils::)?partial_min::<\w+>': ('geo', r'partial_min'), r'(utils::)?partial_max::<\w+>': ('geo', r'partial_max')}), uf)
+        gc = [[('member', i) for i in range(nm)]]
+        outs = ip.call_fn(gfn, [Ref(lambda gc=gc: gc)], z3.BoolVal(True))
+        npaths += len(outs)
+        cond = z3.And(assume_box) if assume_box else z3.BoolVal(True)
+        bad.append(z3.And(cond, z3.Not(z3.Or([pc for pc, _ in outs]))))
+        any_box = z3.Or(has) if has else z3.BoolVal(False)
+        for pc, val in outs:
+            val = deref(val)
+            if variant_is(val, 'None'):
+                bad.append(z3.And(cond, pc, any_box))
+                continue
+            r = deref(val.fields[0])
+            want = [any_box]
+            for k in (0, 1):
+                for i in range(nm):
+                    want.append(z3.Implies(has[i], z3.And(r[1][k] <= box[i][0][k], r[2][k] >= box[i][1][k])))
+                want.append(z3.Or([z3.And(has[i], r[1][k] == box[i][0][k]) for i in range(nm)]))
+                want.append(z3.Or([z3.And(has[i], r[2][k] == box[i][1][k]) for i in range(nm)]))
+            bad.append(z3.And(cond, pc, z3.Not(z3.And(want))))
+    st, info, model = check_unsat('bounding_rect_fold_real', [z3.Or(bad)])
+    return dict(theory='Real (linear); coordinates arbitrary; Rect::new uninterpreted', functions=['geo_types::private_utils::get_bounding_rect', 'get_min_max', 'BoundingRect for GeometryCollection', 'bounding_rect_merge', 'utils::partial_min / partial_max'], paths=npaths, status=st, info=info, model=None, replay=('bounding_rect', ''))
+
+
 # ---- C05 kernels
 
 @obligation('C05', 'line_determinant_int', 'for ALL integers: Line::determinant() = start.x*end.y - start.y*end.x (the shoelace term)')
